@@ -19,13 +19,12 @@ pub fn c11_contract_objective_bounds_0() {
 }
 
 /// proportional_weights against the CONTRACT of objective_bounds: a better objective never gets a smaller weight
-/// @verif anchor=proportional_weights bound="population size 2; |objective| <= 1e6 or +inf; offset in [0, 1e3]; callee objective_bounds replaced by its verified contract"
+/// @verif anchor=proportional_weights bound="population size 2; |objective| <= 1e6 or +inf; offset 0; callee objective_bounds replaced by its verified contract"
 #[cfg_attr(kani, kani::proof)] #[cfg_attr(kani, kani::stub_verified(objective_bounds))] #[cfg_attr(kani, kani::unwind(6))]
 pub fn c11_weights_2_modular() {
     let pop = sym_population(2);
     for x in pop.iter() { assume(x.objective().value().abs() <= 1.0e6 || x.objective().value() == f64::INFINITY); }
-    let offset: f64 = sym();
-    assume(offset >= 0.0 && offset <= 1.0e3);
+    let offset: f64 = 0.0;
     if let Some(w) = proportional_weights(&pop, offset, false) {
         assert!(w.len() == 2);
         for i in 0..2 {
